@@ -90,9 +90,27 @@ def _bs_value(R):
     return ffloat(BSV[R][0])
 
 
+BADTYPE = {"none": None, "str": "", "str2": "a", "list": [], "tuple": (), "dict": {}, "list1": [0.5]}
+
+
+def is_badtype(L):
+    return isinstance(L, list) and len(L) == 2 and L[0] == "badtype"
+
+
+def err_name_for(op, e):
+    """exception class name of a rejected call; a non-numeric loss is presented to the model as an out-of-range
+    number, so the implementation's TypeError is mapped onto ValueError for exactly those calls"""
+    name = type(e).__name__
+    if name == "TypeError" and any(is_badtype(x) for x in op):
+        return "ValueError"
+    return name
+
+
 def _loss_value(L):
     if L is None:
         return 0
+    if is_badtype(L):                # a non-numeric loss (several of them falsy): TypeError before anything is appended
+        return BADTYPE[L[1]]
     if isinstance(L, list):
         return L[1] / L[2]
     return ffloat(LSV[L][0])
@@ -173,7 +191,7 @@ def run_impl(prog, on_step=None, want=None):
         except NotImplementedError:
             out = {"err": "OtherError"}
         except Exception as e:  # noqa: BLE001
-            out = {"err": type(e).__name__}
+            out = {"err": err_name_for(op, e)}
         outcomes.append(out)
         if on_step is not None:
             on_step(pool, op, out, before)
@@ -195,6 +213,8 @@ def _bs_coq(R):
 def _loss_coq(L):
     if L is None:
         return _lit((F(0), F(1), F(0)))
+    if is_badtype(L):                # presented to the model as an out-of-range number (ValueError); the driver maps
+        return _lit((F(-1, 4), F(0), F(0)))      # the implementation's TypeError onto it for these calls
     if isinstance(L, list):
         return _lit((F(L[1], L[2]), F(0), F(0)))
     return _lit(LSV[L])
@@ -275,6 +295,8 @@ def gen_value_bs(rng, bad=0.0):
 
 def gen_value_loss(rng, p=0.3, bad=0.0):
     if rng.random() < bad:
+        if rng.random() < 0.4:
+            return ["badtype", rng.choice(sorted(BADTYPE))]
         return ["raw", rng.choice([-1, 5]), 4]
     if rng.random() < p:
         return rng.randrange(len(LSV))
